@@ -294,7 +294,19 @@ def run(report):
             report.failure("c11-unindent-%s" % kk, "unindent(%r): %s" % (t, json.dumps(r)[:200]), {"op": "unindent", "src": t, "answer": r})
         elif r.get("text") != m.get("text"):
             report.failure("c11-unindent-model", "Lean unindent model and unindent.rs disagree", {"correspondence": "unindent (vlib/c11.py S1)", "op": "unindent", "src": t, "impl": r, "model": m}, no_input=True)
-    stats["s1_unindent_texts"] = len(texts) + len(texts_cr)
+    # and with white space that is not a blank or a tab (no-break space, em space, ideographic space): wider than one byte
+    texts_u = list(G.exhaustive([" ", "a", "\n", "\u00a0", "\u2003", "\u3000", "\t"], 4 if tier == "quick" else 5))
+    res = jv.pbatch([{"op": "unindent", "src": t} for t in texts_u], chunk=20000)
+    mres = dr.pbatch([{"op": "unindent", "src": t} for t in texts_u], chunk=20000)
+    for t, r, m in zip(texts_u, res, mres):
+        kk = classify_jv(r)
+        if kk:
+            report.failure("c11-unindent-%s" % kk, "unindent(%r): %s" % (t, json.dumps(r)[:200]), {"op": "unindent", "src": t, "answer": r})
+            break
+        elif r.get("text") != m.get("text"):
+            report.failure("c11-unindent-model", "Lean unindent model and unindent.rs disagree", {"correspondence": "unindent (vlib/c11.py S1)", "op": "unindent", "src": t, "impl": r, "model": m}, no_input=True)
+            break
+    stats["s1_unindent_texts"] = len(texts) + len(texts_cr) + len(texts_u)
 
     # string literal cooking: escape sequences, unicode escapes, indented strings (model vs parser)
     COOK = ["a", "\\", "n", "t", "r", "\"", "u", "{", "}", "0", "1", "F", "f", "g", "D", "8", "\n", " ", "\u00e9", "'", "\r\n"]
